@@ -68,6 +68,7 @@ TStep ==
                THEN TrKnown(tr, "C12_K1_nonstandard_calendar")
                ELSE Chk(tr, i, "decoded instant " \o ToString(i) \o " (" \o tr.kind \o ")", tr.got[i], Expected(tr, i)))
        \* bounds=True : n+1 edges, the last one step after the last instant
+       /\ ChkT(tr, 1, "getTimes(bounds=True) raised on a file whose getTimes() returned: " \o tr.bounds.exc, tr.bounds.exc = "")
        /\ (tr.bounds.h =>
              /\ ChkT(tr, 1, "bounds=True: number of edges", Len(tr.bounds.got) = NExpected(tr) + 1)
              /\ \A i \in 1..NExpected(tr) :
@@ -80,6 +81,8 @@ TStep ==
              /\ (tr.back.strict => \A i \in 1..Len(tr.w) :
                   Chk(tr, i, "time2idx(getTimes()) vs position", tr.back.idx[i], i - 1))
        \* IOAPI only: the synthesised CF time variable decodes to the same instants
+       /\ ChkT(tr, 1, "synthesis of a CF time variable raised: " \o tr.synth.exc, tr.synth.exc = "")
+       /\ (~NonStdCal(tr) => ChkT(tr, 1, "date2num / time2idx of the decoded times raised: " \o tr.back.exc, tr.back.exc = ""))
        /\ (tr.kind \in {"tflag", "sdate"} /\ tr.synth.h) =>
              /\ ChkT(tr, 1, "synthesised time variable: length", Len(tr.synth.got) = NExpected(tr))
              /\ \A i \in 1..NExpected(tr) :
